@@ -66,35 +66,45 @@ def run(ctx: common.Ctx):
         "an undelivered message at the end of a run counts as a hang (rendezvous sends never complete)",
     ]
     ctx.lean_obligations("PtProofs.C10", THEOREMS)
-    nprog = 400 if ctx.thorough else 60
+    nprog = 500 if ctx.thorough else 90
     npairs = 3000 if ctx.thorough else 150
     rng = random.Random(f"c10:{ctx.seed}")
-    tasks = []
+    # phase 1: the unfaulted programs (a valid program must be accepted)
+    base_tasks = []
     for i in range(nprog):
         prof = "small" if i % 2 == 0 else "default"
-        spec = G.generate(ctx.seed, i, prof)
-        base = {"seed": ctx.seed, "index": i, "profile": prof}
-        tasks.append(dict(base, faults=[]))
+        base_tasks.append({"seed": ctx.seed, "index": i, "profile": prof, "faults": []})
+    try:
+        base_results = distwork.run_pool(distwork.c10_unit, base_tasks, deadline_s=600)
+    except distwork.WorkTimeout as e:
+        raise common.LeanError(f"C10 work pool timed out: {e}")
+    accepted = [t for t, r in zip(base_tasks, base_results)
+                if not r.get("timeout") and all(x["status"] == "ok" for x in r["ranks"])]
+    ctx.coverage["base_programs"] = {"generated": nprog, "accepted_and_faulted": len(accepted)}
+    # phase 2: every single fault at every communication operation of the accepted programs
+    tasks = []
+    for base in accepted:
+        spec = G.generate(base["seed"], base["index"], base["profile"])
         sites = G.fault_sites(spec)
         for kind, site in sites:
             tasks.append(dict(base, faults=[[kind, site, 0]]))
             if kind in ("dup_send", "redirect_send", "redirect_recv", "cycle") and spec["nranks"] > 2:
                 tasks.append(dict(base, faults=[[kind, site, 1]]))
     # seeded pairs
-    for _ in range(npairs):
-        i = rng.randrange(nprog)
-        prof = "small" if i % 2 == 0 else "default"
-        spec = G.generate(ctx.seed, i, prof)
+    for _ in range(npairs if accepted else 0):
+        base = rng.choice(accepted)
+        spec = G.generate(base["seed"], base["index"], base["profile"])
         sites = G.fault_sites(spec)
         if len(sites) < 2:
             continue
         (k1, s1), (k2, s2) = rng.sample(sites, 2)
-        tasks.append({"seed": ctx.seed, "index": i, "profile": prof,
-                      "faults": [[k1, s1, rng.randrange(2)], [k2, s2, rng.randrange(2)]]})
+        tasks.append(dict(base, faults=[[k1, s1, rng.randrange(2)], [k2, s2, rng.randrange(2)]]))
     try:
         results = distwork.run_pool(distwork.c10_unit, tasks, deadline_s=2400 if ctx.thorough else 600)
     except distwork.WorkTimeout as e:
         raise common.LeanError(f"C10 work pool timed out: {e}")
+    tasks = base_tasks + tasks
+    results = base_results + results
     live = [(t, r) for t, r in zip(tasks, results) if not r.get("inapplicable")]
     for t, r in live:
         if r.get("timeout"):
@@ -172,11 +182,13 @@ def run(ctx: common.Ctx):
         if all_ok:
             n_through += 1
             ex = r.get("explore", {})
-            if ex.get("failures"):
+            from .c08 import exec_signature
+            fails = [f for f in ex.get("failures", [])
+                     if not exec_signature(f["what"], r["patterns"]).endswith("output-name-equals-input-name")]
+            if fails:
                 n_through_bad += 1
-                f = ex["failures"][0]
+                f = fails[0]
                 if d["verdict"] == "ok":
-                    from .c08 import exec_signature
                     sig = "valid-accepted-but-" + exec_signature(f["what"], r["patterns"])
                 else:
                     sig = f"undiagnosed:{label if len(faults) < 2 else 'pair:' + d['verdict']}:{f['what'].split(':')[0]}"
@@ -184,6 +196,17 @@ def run(ctx: common.Ctx):
                               f"and it fails under schedule {f['choices']}: {f['what']}",
                               dict(replay, choices=f["choices"], what=f["what"]))
                 disagree = None if d["verdict"] != "ok" else disagree
+            elif d["verdict"] != "ok" and (
+                    r["comm_count"]["program_sends"] != r["comm_count"]["partition_sends"]
+                    or r["comm_count"]["program_recvs"] != r["comm_count"]["partition_recvs"]):
+                # the partition silently drops a send / receive of the program: one of the
+                # program's messages is never delivered although every run "succeeds"
+                n_through_bad += 1
+                ctx.violation(f"undiagnosed:{label if len(faults) < 2 else 'pair:' + d['verdict']}:partition-drops-communication",
+                              f"the real code returns a partition for the invalid program {prog} (model verdict "
+                              f"{d['verdict']}) in which communication operations are missing: {r['comm_count']}",
+                              dict(replay, comm_count=r["comm_count"]))
+                disagree = None
             elif d["verdict"] != "ok":
                 # model says invalid, real code lets it through and no schedule fails
                 ctx.broken.append(f"correspondence:model-rejects-real-accepts-and-runs:{label}:{d['verdict']}")
@@ -194,8 +217,9 @@ def run(ctx: common.Ctx):
                 ctx.broken.append(f"correspondence:nobody-raised-nobody-returned:{label}")
             elif not all_ok and any(x["exc"] not in DIAG_CLASSES for _, x in raised):
                 i0, x0 = [(i, x) for i, x in raised if x["exc"] not in DIAG_CLASSES][0]
-                sig = f"not-a-diagnostic:{x0['stage']}:{x0['exc']}:{label if len(faults) < 2 else 'pair'}" + \
-                    known_suffix(r["patterns"], x0["exc"], x0["text"])
+                suf = known_suffix(r["patterns"], x0["exc"], x0["text"])
+                sig = f"not-a-diagnostic:{x0['stage']}:{x0['exc']}" + \
+                    (suf if suf else f":{label if len(faults) < 2 else 'pair'}")
                 ctx.violation(sig, f"{prog}: rank {i0} fails with {x0['exc']} ({x0['text']}) instead of a "
                               f"diagnostic; model: {d['verdict']}", dict(replay, ranks=ranks))
             else:
